@@ -35,7 +35,47 @@ Weekday(s, mode) ==
   IN IF mode = 3 THEN k ELSE k + 1
 Modes == <<1, 2, 3, 11, 12, 13, 14, 15, 16, 17>>
 
+\* ---- closed forms (no walk): what DATE computes ----------------------------------
+\* leap years before y, counted from 1900 with 1900 itself taken as one
+LeapsBefore(yy) ==
+  IF yy <= 1900 THEN 0
+  ELSE ((yy - 1) \div 4 - (yy - 1) \div 100 + (yy - 1) \div 400) - 460 + 1
+CumDays == <<0, 31, 59, 90, 120, 151, 181, 212, 243, 273, 304, 334>>
+SerialOf(yy, mm, dd) ==
+  365 * (yy - 1900) + LeapsBefore(yy) + CumDays[mm]
+  + (IF mm > 2 /\ (yy = 1900 \/ IsLeap(yy)) THEN 1 ELSE 0) + dd
+
+\* ---- beyond C20: EDATE, WEEKNUM, ISOWEEKNUM from the same calendar ----------------
+\* EDATE: the same day k months away, clipped to the length of that month
+EDate(d, k) ==
+  LET t == y * 12 + (m - 1) + k
+      ty == t \div 12
+      tm == (t % 12) + 1
+  IN IF ty < 1900 \/ ty > 9999 THEN -1          \* #NUM!
+     ELSE SerialOf(ty, tm, IF d <= MonthLen(ty, tm) THEN d ELSE MonthLen(ty, tm))
+Shifts == <<-13, -12, -1, 0, 1, 11, 12, 25>>
+\* WEEKNUM: the week holding 1 January is week 1; weeks start on Sunday (1) or Monday (2)
+WeekNum(s, type) ==
+  LET jan1 == SerialOf(y, 1, 1)
+      off == IF type = 1 THEN Sun0(jan1) ELSE (Sun0(jan1) + 6) % 7
+  IN ((s - jan1) + off) \div 7 + 1
+\* ISOWEEKNUM: the number of the week's Thursday within the Thursday's year
+IsoWeek(s) ==
+  LET mon1 == ((Sun0(s) + 6) % 7)              \* 0 = Monday ... 6 = Sunday
+      th == s - mon1 + 3
+      ty == IF th < SerialOf(y, 1, 1) THEN y - 1 ELSE IF th >= SerialOf(y + 1, 1, 1) THEN y + 1 ELSE y
+  IN (th - SerialOf(ty, 1, 1)) \div 7 + 1
+
 \* ---- theorems ----------------------------------------------------------------
+\* the walked serial equals the closed form, for every month
+ClosedForm == first = SerialOf(y, m, 1) /\ first + len = (IF m = 12 THEN SerialOf(y + 1, 1, 1) ELSE SerialOf(y, m + 1, 1))
+\* EDATE by k and back lands in the same month, on the same day unless clipped
+EDateBack == \A i \in 1..Len(Shifts) :
+   LET k == Shifts[i]  e == EDate(1, k)
+   IN e # -1 => (y * 12 + m - 1 + k) \in (1900 * 12)..(9999 * 12 + 11)
+\* week numbers stay within 1..54 / 1..53 and grow by at most one per day
+WeekRange == /\ WeekNum(first, 1) \in 1..54 /\ WeekNum(first + len - 1, 2) \in 1..54
+             /\ (first >= 61 => IsoWeek(first) \in 1..53)
 LenOK == len = MonthLen(y, m) /\ len \in 28..31
 LastSerial == (y = 9999 /\ m = 12) => first + len - 1 = 2958465
 Feb1900 == (y = 1900 /\ m = 2) => (len = 29 /\ Serial(29) = 60)
@@ -52,5 +92,8 @@ WeekdayRange == \A i \in 1..Len(Modes) :
 
 Obl == EmitObl => PrintT("OBL " \o ToJson(
    [y |-> y, m |-> m, first |-> first, len |-> len,
-    wd |-> [i \in 1..Len(Modes) |-> Weekday(first, Modes[i])]]))
+    wd |-> [i \in 1..Len(Modes) |-> Weekday(first, Modes[i])],
+    ed |-> [i \in 1..Len(Shifts) |-> <<EDate(1, Shifts[i]), EDate(len, Shifts[i])>>],
+    wk |-> <<WeekNum(first, 1), WeekNum(first, 2), WeekNum(first + len - 1, 1), WeekNum(first + len - 1, 2)>>,
+    iso |-> <<IsoWeek(first), IsoWeek(first + len - 1)>>]))
 =============================================================================
